@@ -38,6 +38,8 @@ C18_Survives ==
   /\ Check("C18", "a diagnostic starts outside the document or ends before it starts",
            (O.panic = "" /\ ~O.timeout) => \A i \in 1..Len(O.diags) : InDoc(O.diags[i][3], O.diags[i][4]) /\ NotBefore(O.diags[i][3], O.diags[i][4], O.diags[i][5], O.diags[i][6]))
   /\ Check("C18", "analysing the same text twice gives different diagnostics or symbols", (O.panic = "" /\ ~O.timeout) => O.deterministic)
+  /\ Check("C18", "analysing this document changed what the analysis says about another, fixed text (state shared between analyses)",
+           ("sentinel" \in DOMAIN O) => O.sentinel)
 Post == TLCGet(2) = 0
 ASSUME TLCSet(2, 0)
 =============================================================================
